@@ -499,3 +499,11 @@ VARIANTS["C10"] += [
     ("r7-secondary-alignments-used", "whatshap/variants.py", "                    or alignment.bam_alignment.is_secondary\n", "", "C10.R7"),
     ("r7-mapq-threshold-inclusive", "whatshap/variants.py", "alignment.bam_alignment.mapping_quality < self._mapq_threshold", "alignment.bam_alignment.mapping_quality <= self._mapq_threshold", "C10.R7"),
 ]
+
+VARIANTS["C06"] += [
+    ("r12-deletion-overshoot-taken-from-query", "whatshap/variants.py", "                if ref_pos >= reference_bases:\n                    return (reference_bases, query_pos)\n", "                if ref_pos >= reference_bases:\n                    return (reference_bases, query_pos + reference_bases - ref_pos)\n", "C06.R12"),
+    ("r12-match-overshoot-kept", "whatshap/variants.py", "                    return (reference_bases, query_pos + reference_bases - ref_pos)\n", "                    return (reference_bases, query_pos)\n", "C06.R12"),
+]
+VARIANTS["C16"] += [
+    ("r8-stale-sample-in-result-loop", "whatshap/cli/genotype.py", "                        genotypes_list = variant_table.genotypes_of(s)\n", "                        genotypes_list = variant_table.genotypes_of(sample)\n", "C16.R8"),
+]
